@@ -136,3 +136,9 @@ package transport
 //@   before call:TrimPrefix#1 assert arg0 == addr && arg1 == "*"
 //@   before call:ResolveTCPAddr#1 assert arg0 == "tcp" && (hasprefix(old(addr), "*") ==> "*" + arg1 == old(addr)) && (!hasprefix(old(addr), "*") ==> arg1 == old(addr))
 //@   ensures result0 == a0 && result1 == e0
+
+// ---- round 12 (C13 "the pipe's read-only options (... TLS state ...) describe the actual connection"):
+// the TLS handshake runs on the first I/O of the connection, i.e. inside this function, so the state
+// recorded for the pipe has to be read from the connection after the peer's header came in ----
+//@ func (*conn).handshake
+//@   ensures isnil(result) && is_type(p.c, "*crypto/tls.Conn") ==> called_since("call:Read#1", "ConnectionState") && has(p.options, mangos.OptionTLSConnState)
